@@ -165,6 +165,15 @@ def apply(s, op):
             # a ready-made Property object (as the library itself hands over when it merges blocks)
             _styled(s)[op[1]].style.setProperty(css.Property('z', 'w'))
             r = None
+        elif k == 'sself':
+            # a rule is handed the parts it already holds (rule.style = edit(rule.style) with an edit that works in place)
+            rule = _styled(s)[op[1]]
+            rule.style = rule.style
+            if hasattr(rule, 'selectorList'):
+                rule.selectorList = rule.selectorList
+            if hasattr(rule, 'media') and rule.type == R.MEDIA_RULE:
+                rule.media = rule.media
+            r = None
         elif k == 'smove':
             # the properties of a block that is thrown away are moved into a block of the sheet (what the library does with a
             # margin box that is given twice)
@@ -187,7 +196,7 @@ def _rule_list(k):
     return cssutils.CSSParser(fetcher=fetch).parseString(RULE_LISTS[k], href='http://v/l.css').cssRules
 
 
-PROBES = ('sprop', 'smove', 'insl', 'minsl', 'insq', 'minsq')  # judged like every transition, but their target states are not expanded (they leave the rule alphabet)
+PROBES = ('sprop', 'smove', 'sself', 'insl', 'minsl', 'insq', 'minsq')  # judged like every transition, but their target states are not expanded (they leave the rule alphabet)
 
 
 def _styled(s):
@@ -234,6 +243,7 @@ def ops(s, L):
     for i in range(ns):
         yield ('sprop', i)
         yield ('smove', i)
+        yield ('sself', i)
     for r in RULES:
         if n < L:
             for i in range(n + 1):
